@@ -602,6 +602,43 @@ class SliceModel:
                 del pred_false[sb]
             else:
                 found = True
+        # `match classify(ch) { CharKind::Delim => .. }`: a switch on the discriminant of a pure local classifier of the
+        # character; a variant is "ASCII only" when no non-ASCII character of the classifier's partition maps to it
+        class_nonascii = {}
+        for sb in sorted(body.live_blocks):
+            t = body.blocks[sb]['term']
+            if t['k'] != 'switch':
+                continue
+            so = single_origin(trace_operand(body, t['discr'], through_calls=set()))
+            if so is None or so.kind != 'discr' or so.data[2]['pl']['p']:
+                continue
+            ko = single_origin(trace_local(body, so.data[2]['pl']['l'], (), through_calls=set()))
+            if ko is None or ko.kind != 'callres' or ko.proj or len(ko.data.args) != 1 or not ko.data.ruid:
+                continue
+            ao = single_origin(trace_operand(body, ko.data.args[0], through_calls=set()))
+            if ao is None or (ao.kind, ao.key()[1], ao.proj) != char_key:
+                continue
+            g = self.prog.by_id.get(ko.data.ruid)
+            if g is None or g.is_closure or g.arg_count != 1 or g.locals[1]['ty'] != 'char':
+                continue
+            import cinterp
+            cand = set(cinterp.callee_edges_and_consts(self.prog, g)) | {0x7F, 0x80, 0x81, 0xE9, 0x3000, 0x4E2D, 0x10FFFF, 0xD7FF, 0xE000}
+            cand = {x for x in cand if 0x80 <= x <= 0x10FFFF and not (0xD800 <= x <= 0xDFFF)}
+            vs = set()
+            okk = True
+            for ch in sorted(cand):
+                try:
+                    v = cinterp.Interp(self.prog).run(g, [ch])
+                except cinterp.Unknown:
+                    okk = False
+                    break
+                if not (isinstance(v, tuple) and v[0] == 'adt' and not v[3]):
+                    okk = False
+                    break
+                vs.add(v[2])
+            if okk:
+                class_nonascii[sb] = vs
+                found = True
         if not found:
             return False, 'no switch on the item\'s character'
         # reachability without those edges
@@ -615,6 +652,13 @@ class SliceModel:
             t = body.blocks[x]['term']
             if x in pred_false:
                 st.extend(pred_false[x])
+                continue
+            if x in class_nonascii:
+                listed = {v for v, tb in t['targets']}
+                nxt = [tb for v, tb in t['targets'] if v in class_nonascii[x]]
+                if class_nonascii[x] - listed:
+                    nxt.append(t['otherwise'])
+                st.extend(nxt)
                 continue
             if t['k'] == 'switch':
                 so = single_origin(trace_operand(body, t['discr'], through_calls=set()))
